@@ -8,7 +8,9 @@ Oracle (no model): per build the two universes have the same exit class and the 
                executed in the minimal universe has the bytes it has in the `all` universe (each command embeds every dependency
                output it read, so a missing or stale dependency output shows up in these bytes).
 """
+import os
 from checks import _hist as H
+from checks import _hist2 as H2
 import vlib
 
 PROPERTY = "C15"
@@ -58,6 +60,10 @@ ASSUMPTIONS = [
 FAMILIES_QUICK = [("edits", 2), ("wipe", 3), ("lostblob", 3), ("dirs", 2), ("alias", 2), ("aliaswipe", 2), ("nocache", 2), ("tamper", 1), ("disabled", 2), ("taint", 2), ("collector", 2), ("run", 3), ("fanout", 3), ("depchecks", 3)]
 FAMILIES_THOROUGH = [(f, n * 15) for f, n in FAMILIES_QUICK]
 
+# round-c families (generators in _hist2.py)
+FAMILIES2_QUICK = [("bintool", 2), ("runflip", 2), ("checklost", 3)]
+GEN2 = {"bintool": H2.gen_bintool, "runflip": H2.gen_runflip, "checklost": H2.gen_checklost}
+
 
 def lost_owners(h, ws):
     """targets owning an output whose CAS blob a `drop` step of the history removed"""
@@ -69,9 +75,13 @@ def run(ctx):
     quick = ctx.tier == "quick"
     fams = FAMILIES_QUICK if quick else FAMILIES_THOROUGH
     hists = []
-    for fam, n in fams:
+    if os.environ.get("VERIF_DEV_ONLY_NEW"):
+        fams = []       # development only: run just the round-c families
+    for fam, n in list(fams) + [(f, n if quick else n * 15) for f, n in FAMILIES2_QUICK]:
         for _ in range(n):
-            if fam == "collector":
+            if fam in GEN2:
+                hists.append(GEN2[fam](ctx.rng))
+            elif fam == "collector":
                 hists.append(H.gen_collector(ctx.rng))
             elif fam == "run":
                 hists.append(H.gen_runchain(ctx.rng))
@@ -88,7 +98,9 @@ def run(ctx):
                             "blob of the middle target lost and its workspace copy removed; dirs = directory outputs whose entry set follows the inputs, "
                             "tampered in place); families: " + ", ".join("%s x%d" % f for f in fams) +
                             "; collector = command-less target whose dir:: output is produced by its dependencies; run = `grog run` of generated binaries (one or two run "
-                            "targets, reverts, wipes); fanout = one cached dependency with a 600-file directory and several dependants re-running at once; every history "
+                            "targets, reverts, wipes); bintool = a tool that only declares a bin_output, used through $(bin :tool), going v1 -> v2 -> v1 while its "
+                            "dependant is edited / outputs are wiped; runflip = `grog run` of a target (bin + data output) whose source flips between versions built "
+                            "before; checklost = cached targets with output checks lose the checked external state; fanout = one cached dependency with a 600-file directory and several dependants re-running at once; every history "
                             "ends with a mode-all build of everything in both universes (convergence); non-trivial = distinct history with >=2 builds, one executing "
                             "and one with a hit (in the minimal universe)")
     grog = ctx.grog_binary()
@@ -212,4 +224,14 @@ def replay(ctx, rep):
               (mo[i]["ok"], sorted(mo[i]["executed"])) if isinstance(mo, list) and i < len(mo) else mo))
         if x["ok"] != y["ok"] or sorted(x["executed"]) != sorted(y["executed"]):
             rc = 1
+        if x.get("run_out") != y.get("run_out"):
+            print("   `grog run` printed", x.get("run_out"), "under all and", y.get("run_out"), "under minimal")
+            rc = 1
+        for l in sorted(set(y["executed"])):
+            t = H.final_ws(h)["targets"].get(l)
+            for op in (H.all_outs(t) if t and y["ok"] else []):
+                pth = H.out_path(t, op)
+                if x["fs"].get(pth) != y["fs"].get(pth):
+                    print("   output %s of %s (executed under minimal) differs between the modes" % (pth, l))
+                    rc = 1
     return rc
